@@ -59,7 +59,15 @@ func (l *Lexer) NextToken() token.Token {
 func (l *Lexer) nextInsideToken() token.Token {
 	var tok token.Token
 
+	// white space and # line comments separate tokens; any number of
+	// comments may follow one another
 	l.skipWhitespace()
+	for l.ch == '#' {
+		for l.ch != 0 && l.ch != '\n' && l.ch != '\r' {
+			l.readChar()
+		}
+		l.skipWhitespace()
+	}
 
 	// every token carries the line on which it begins
 	line := l.curLine
@@ -186,15 +194,6 @@ func (l *Lexer) nextInsideToken() token.Token {
 	case '`':
 		tok.Type = token.B_STRING
 		tok.Literal = l.readBString()
-	case '#':
-		for l.ch != 0 {
-			l.readChar()
-			if l.ch == '\n' || l.ch == '\r' {
-				break
-			}
-		}
-		// the token after the comment is complete: do not advance past it again
-		return l.nextInsideToken()
 	case '[':
 		tok = l.newToken(token.LBRACKET)
 	case ']':
